@@ -3,7 +3,7 @@
 (* 20 kV ring b0-b1-b2 + 0.4 kV bus b3, line switches sA (line b0-b1 at b1) and sB (line b1-b2 at b1), so that  *)
 (* bus b1 is unsupplied iff both are open).                                                                      *)
 EXTENDS Integers, Sequences, FiniteSets, TLC
-Edits == {"toggleA", "toggleB", "load"}
+Edits == {"toggleA", "toggleB", "load", "toggleG"}      \* toggleG: in_service of PV generator 0
 Inits == {"auto", "flat", "dc", "results"}
 PFs   == {[op |-> "runpp", init |-> x] : x \in Inits} \cup {[op |-> "rundcpp", init |-> "-"]}
 Other == {[op |-> o, init |-> "-"] : o \in {"runopp", "calc_sc", "runpp_3ph"}}
@@ -11,10 +11,11 @@ Steps == {[op |-> e, init |-> "-"] : e \in Edits} \cup PFs \cup Other
 IsCalc(a) == a.op \notin Edits
 
 \* abstract element state of the net
-N0 == [sA |-> FALSE, sB |-> TRUE, lvl |-> 1]      \* sA starts open: one toggle of sB isolates bus b1
+N0 == [sA |-> FALSE, sB |-> TRUE, lvl |-> 1, g |-> TRUE]      \* sA starts open: one toggle of sB isolates bus b1
 Edit(n, a) == CASE a.op = "toggleA" -> [n EXCEPT !.sA = ~@]
                 [] a.op = "toggleB" -> [n EXCEPT !.sB = ~@]
                 [] a.op = "load"    -> [n EXCEPT !.lvl = 3 - @]
+                [] a.op = "toggleG" -> [n EXCEPT !.g = ~@]
                 [] OTHER -> n
 Unsupplied(n) == IF ~n.sA /\ ~n.sB THEN {1} ELSE {}          \* bus b1 hangs on the two switched lines only
 Hamming(n, m) == (IF n.sA # m.sA THEN 1 ELSE 0) + (IF n.sB # m.sB THEN 1 ELSE 0)
